@@ -48,6 +48,9 @@ def main():
     meta["ran"].append({"cmd": "with change: cargo test --workspace --offline --no-fail-fast (demo moved aside)", "rc": rc, "passed": ok, "failed": failed})
     shutil.move(tmp_demo, demo_path)
     suite_ok = rc == 0 and failed == 0 and ok >= 98
+    feats = os.environ.get("DEMO_FEATURES", "")
+    if feats:
+        demo_name = demo_name + " --features " + feats
     rc, out = run(f"cargo test -p {pkg} --offline --test {demo_name}", wt)
     meta["ran"].append({"cmd": f"with change: cargo test -p {pkg} --test {demo_name}", "rc": rc, "summary": test_summary(out)})
     demo_fails = rc != 0
